@@ -35,7 +35,7 @@ from hypothesis import strategies as st
 from vlib import deppair as dp
 from vlib import udpair
 from vlib import vsched
-from vlib.engine import Leg, Violation, derive_seed, unexpected
+from vlib.engine import Leg, Violation, derive_seed, unexpected, twin_env
 
 PROPERTY = "C04"
 LEVEL = "fault_enumeration"
@@ -578,3 +578,10 @@ LEGS = [
              "start fixed to 106A; same non-trivial rule (fault-free cases: "
              ">= 5 steps and chaining)."),
 ]
+
+# the same searches with every nfc logger enabled down to the lowest level
+# (code that only runs, or only evaluates its arguments, when logging is on)
+_byl = dict((lg.name, lg) for lg in LEGS)
+LEGS += [twin_env(_byl[n], "log", {"VERIF_LOG": "debug"}, quick=q, thorough=t,
+                  shards_quick=2)
+         for n, q, t in [('random', 300, 3000)] if n in _byl]
